@@ -1,5 +1,6 @@
 import Duckling.Lemmas.LexAtoms
 import Duckling.Lemmas.LexGroup
+import Duckling.Lemmas.LexNum
 /-
   Flat expressions over ALL kinds of leaf values — unsigned numbers, variable names (among any set of names in scope), TRUE / FALSE,
   string literals, parenthesised groups `( … )` / `!( … )` around ANY balanced text — joined by any of the fourteen operators, with any
@@ -15,6 +16,7 @@ inductive Atom
   | fls
   | str (content : Str)
   | grp (neg : Bool) (inner : Str)
+  | lit (neg : Bool) (ip : Str) (fp : Option Str)      -- signed / decimal literal `[-]digits[.digits]`
 
 def Atom.text : Atom → Str
   | .num ds => ds
@@ -23,6 +25,7 @@ def Atom.text : Atom → Str
   | .fls => ['F', 'A', 'L', 'S', 'E']
   | .str c => ['"'] ++ c ++ ['"']
   | .grp neg inner => grpText neg inner
+  | .lit neg ip fp => litText neg ip fp
 
 def Atom.tok : Atom → Tok
   | .num ds => ⟨.num, ds, false⟩
@@ -31,6 +34,7 @@ def Atom.tok : Atom → Tok
   | .fls => ⟨.bool, ['F', 'A', 'L', 'S', 'E'], false⟩
   | .str c => ⟨.str, c, false⟩
   | .grp neg inner => ⟨.grp, '(' :: (inner ++ [')']), neg⟩
+  | .lit neg ip fp => ⟨.num, litText neg ip fp, false⟩
 
 /-- no name in scope contains a character that separates tokens -/
 def NamesOk (names : List Str) : Prop := ∀ nm ∈ names, ∀ ch ∈ nm, ¬ Delim ch
@@ -42,6 +46,7 @@ def GoodAtom (names : List Str) : Atom → Prop
   | .fls => True
   | .str c => ∀ ch ∈ c, (ch == '"') = false
   | .grp _ inner => GoodGrp inner ∧ NoParenNames names
+  | .lit _ ip fp => GoodLit ip fp
 
 theorem delim_endsNum (c : Char) (h : Delim c) : EndsNum c := by
   rcases h with h | h
@@ -81,6 +86,12 @@ theorem atom_head (names : List Str) (a : Atom) (ha : GoodAtom names a) :
     cases neg with
     | false => exact ⟨'(', _, rfl, by decide, by decide⟩
     | true => exact ⟨'!', _, rfl, by decide, by decide⟩
+  | lit neg ip fp =>
+    obtain ⟨d, r, rfl⟩ := List.exists_cons_of_ne_nil ha.1
+    have hd : isDigitC d = true := by simpa using (List.all_eq_true.mp ha.2.1 d (by simp))
+    cases neg with
+    | false => exact ⟨d, r ++ fracText fp, by simp [Atom.text, litText], digit_ne d hd '/' (by decide), digit_ne d hd '=' (by decide)⟩
+    | true => exact ⟨'-', d :: (r ++ fracText fp), by simp [Atom.text, litText], by decide, by decide⟩
 
 theorem atom_text_pos (names : List Str) (a : Atom) (ha : GoodAtom names a) : 0 < a.text.length := by
   obtain ⟨c, r, h, _⟩ := atom_head names a ha
@@ -192,6 +203,16 @@ theorem steps_atom_delim (names : List Str) (hn : NamesOk names) (inp : Array Ch
     exact h
   | grp neg inner =>
     exact ⟨(grpText neg inner).length, by simp [Atom.text], steps_grp names ha.2 inp off out neg inner ha.1 hat⟩
+  | lit neg ip fp =>
+    have h1 := steps_lit names inp off out neg ip fp ha hat
+    have hlen : (if neg then 2 else 1) ≤ (litText neg ip fp).length := by
+      rcases litText_length neg ip fp with h | h
+      · exact h
+      · exact absurd h ha.1
+    refine ⟨(litText neg ip fp).length + 1, by simp [Atom.text], Steps.trans h1 ?_⟩
+    refine Steps.one (s := numG off out (litText neg ip fp) fp.isSome neg) (by simpa [numG, Atom.text] using hidx) ?_
+    rw [show inp[(numG off out (litText neg ip fp) fp.isSome neg).idx]'(by simpa [numG, Atom.text] using hidx) = c by simpa [numG, Atom.text] using ec]
+    exact step_numG_close names off out (litText neg ip fp) fp.isSome neg hlen c (delim_endsNum c hc)
 
 /-- **A2**: an atom at the end of the text -/
 theorem steps_atom_end (names : List Str) (inp : Array Char) (off : Nat) (out : List Tok) (a : Atom)
@@ -222,6 +243,9 @@ theorem steps_atom_end (names : List Str) (inp : Array Char) (off : Nat) (out : 
   | grp neg inner =>
     exact ⟨(grpText neg inner).length, _, by simp [Atom.text], by simpa [sO, Atom.text] using hend,
       steps_grp names ha.2 inp off out neg inner ha.1 hat, by simp [finOut, lexFinish, sO, Atom.tok]⟩
+  | lit neg ip fp =>
+    exact ⟨(litText neg ip fp).length, _, by simp [Atom.text], by simpa [numG, Atom.text] using hend,
+      steps_lit names inp off out neg ip fp ha hat, by simpa [Atom.tok] using finOut_numG off out (litText neg ip fp) fp.isSome neg⟩
 
 end Duckling
 
